@@ -200,7 +200,18 @@ fn scan(
                                         }
                                     }
                                 }
-                                _ => {}
+                                _ => {
+                                    // the read failed (the sample reaches beyond the cut): asked
+                                    // again, the same reader must not hand out anything that is
+                                    // not that sample of the complete file
+                                    if let SampleOutcome::Some(s) = p.read_sample(t, k) {
+                                        tally.samples += 1;
+                                        let ok = base.get(&(t, k)).map(|b| s.bytes.len() == b.len && hash_bytes(&s.bytes) == b.bytes_hash && s.start_time == b.start && s.duration == b.duration && s.rendering_offset == b.offset).unwrap_or(false);
+                                        if !ok {
+                                            out.push(Violation::new(prop, "wrong_sample_from_truncated_file", format!("what=after_failed_read image={class}"), format!("cut at {c} of {len}: read_sample({t},{k}) failed, the same call again returned a sample that is not that sample of the complete file")));
+                                        }
+                                    }
+                                }
                             }
                         }
                     }
